@@ -98,6 +98,15 @@ fn check_tri(v: &[P2; 3], orders: bool, obs: &mut Obs) {
     }
     obs.max("max_outside_distance_milli_px", (worst * 1000.0) as u64);
     if orders {
+        // the vertices handed over as a slice, in the given and in the reverse order
+        for perm in [[0, 1, 2], [2, 1, 0]] {
+            let sl = [pt(v[perm[0]]), pt(v[perm[1]]), pt(v[perm[2]])];
+            let s2: Pts = Triangle::from_slice(&sl).points().take(2_000_000).map(|p| (p.x, p.y)).collect();
+            if s2 != set {
+                obs.fail("independent-of-vertex-order", format!("from_slice in order {:?} gives {} points instead of {}", perm, s2.len(), set.len()));
+                break;
+            }
+        }
         for perm in [[0, 2, 1], [1, 0, 2], [1, 2, 0], [2, 0, 1], [2, 1, 0]] {
             let s2 = tri_set(&[v[perm[0]], v[perm[1]], v[perm[2]]]);
             if s2 != set {
